@@ -110,9 +110,9 @@ CHECKS = {
             "and underscore / digit shapes, in the roles state / parameter / intermediate / conditional intermediate and as quantities no expression reads, with and without remove_unused, numpy + C + jax at two points; the jax slot variables _values_<i> capture nothing outside the refused pattern (JaxNames.v).",
             "Gallina capture-freedom theorems on validated code + rename-and-compare differential execution"),
     "C17": ("Theorems (comment items are ignored by the loader mirror for any text and place; annotations and component tags do not "
-            "influence statement order or slot layout - partial: the lexer-level part is outside the item-level model) + correspondence: "
-            "loader mirror on the items of the real parse of base and decorated text (every load goes through gotranx.load.ode_from_string); direct: seven decorations x 54 comment strings (each also once as trailing comment and as comment line on a fixed model), "
-            "per-load time limit, layout / membership / numerics compared; three directed lexer-level known findings.",
+            "influence statement order or slot layout; white space between the tokens of an expression is inert for the verified lexer: lex_layout - partial: comments and block structure at the character level are outside the model) + correspondence: "
+            "loader mirror on the items of the real parse of base and decorated text (every load goes through gotranx.load.ode_from_string); direct: ten decorations (incl. any white space between tokens inside parentheses, comment lines inside headed blocks) x 56 comment strings (the empty one included) (each also once as trailing comment and as comment line on a fixed model), "
+            "per-load time limit, layout / membership / numerics compared; directed cases for the three repaired lexer-level defects.",
             "Gallina loader model with inertness theorems + metamorphic execution on decorated texts"),
     "C11": ("Theorems (save_then_load: for every loaded model the items the writer mirror produces load again, to an equivalent model "
             "with the same layout and generated functions, in whatever order the atoms are listed; blocks contain exactly the atoms, each "
